@@ -207,19 +207,17 @@ def reference(text):
     return None
 
 
-# the family stays inside the property's domain: doc words contain no `@`, `*`, `/`; ordinary comments between contain no `/`, `*`
-PRE = ["", "x;", "x {\n", "/** p */ x;\n", "/* o */", "// l\n x;\n", "/** p */\n", "x; /** q */ y;"]
-DOCS = [None, "/** d */", "/** é d\n * e */", "/**d*/", "/** a\r\n * @b c\r\n */", "/***/", "/** */", "/**\n*/", "/**\n * é\n */"]
-BETWEEN = [" ", "\n", "\r\n", "\t", "/* o */", "/*o*/", "// l\n", "// l;\r\n", "//\n", "/* é\n o */", "/**/", "\n\n"]
+# the family stays inside the property's domain: doc words contain no `@`, `*`, `/`; ordinary comments contain no `/`, `*`.
+# It is the set of ALL sequences of up to `depth` lexical pieces (code, white space, line / block / doc comments, incl. the
+# edge forms `/**/`, `/***/`, non-ASCII and CRLF bodies): every way code, comments and doc comments can follow each other.
+TOKENS = ["x", ";", " ", "\n", "\r\n", "// l\n", "//\n", "// l;\r\n", "/* o */", "/**/", "/* é\n o */", "/** d */", "/***/", "/** é d\n * e */", "/**d*/"]
 
 
 def family(depth):
     import itertools
-    for pre in PRE:
-        for doc in DOCS:
-            for k in range(depth + 1):
-                for seq in itertools.product(BETWEEN, repeat=k):
-                    yield pre + (doc or "") + "".join(seq)
+    for k in range(depth + 1):
+        for seq in itertools.product(TOKENS, repeat=k):
+            yield "".join(seq)
 
 
 def margin_of(tab):
